@@ -295,6 +295,56 @@ CLAIMS = {
  },
 }
 
+# Clauses added in round 4 of the seeded changes (DESIGN.md 9.2, "After round 4"); appended to the texts above.
+ROUND4 = {
+ "C02": "The implementation selection, once made, is never put back to undecided and hwaccel_init leaves it decided on every path "
+        "(keys expanded under one decision are used under whatever decision is current).",
+ "C03": "The selection is decided once: no store of HW_UNSET into the selector, decided at the end of hwaccel_init on every path; the "
+        "portable CRC32C structure (the other half of every SSE4.2 result) is decided with C01's rule.",
+ "C04": "A consumed readiness bit is cleared by the same routine that edits the event mask and before anything can observe it; the "
+        "pollfd array is widened before the slot is recorded; the heap's sift rules are run here too.",
+ "C05": "Readiness is recomputed from a poll made after the last dispatch; the timer heap's sift rules (shared with C13) are run here.",
+ "C06": "A descriptor that was closed is never reported as the connected socket; a failed registration leaves neither slot nor pollfd entry.",
+ "C07": "A buffer handed to the transport is not the buffer being filled; the in-flight buffer is freed on every return of the completion handler.",
+ "C08": "A closed descriptor is never reported upstream; every byte the end-of-line scan reads is inside the buffer it was given (relational); "
+        "no object is released twice across a failed request set-up (a callee that releases an argument on its failure path while its caller does too).",
+ "C09": "The end-of-line scan stays inside its buffer (relational); an interim 1xx response is discarded before the framing of the final one is "
+        "decided; a body read to end of stream asks for a minimum of one byte.",
+ "C10": "Every fallible BIGNUM call of crypto_dh.c is tested; assertions on the secret-handling path test pointer arguments only.",
+ "C11": "The streaming structure of alg/sha256.c (padding, HMAC pads and sequences, bounded block-buffer writes, context typestate; C01's rules) is "
+        "decided here as well: the generator's output is HMAC-SHA256 of what it feeds in.",
+ "C12": "Representation invariants of the elastic queue and the sequential map (offset/len/size relations) are inductive over their operations (relational).",
+ "C14": "No object is released twice after an allocation failure: within a function, and across a failed call whose callee releases an argument "
+        "(directly or through a field it stored it in) on its own failure path while the caller, finding the call failed, releases it too.",
+ "C15": "A loop that reads from a stream ends at end of input (for every reader call on a cycle: supposing it answers EOF/NULL, no path leads back to "
+        "it; end of input is sticky for the stream's other readers); unhexify reads its NUL-terminated input in order, never beyond a byte not yet "
+        "known to be non-NUL (relational, with a ghost count of known non-NUL leading bytes); the option parser's argv[optind] reads are below argc "
+        "and its pack cursor stops at the terminator (C18's Q1/Q4).",
+ "C16": "The PARSENUM macros are decided on generic instantiations (bounds that are not literals, compiled against the current header): errno cleared "
+        "first, the conversion selected by evaluating the macro's type probes in the target's type, the unsigned type limit and the clamped lower "
+        "bound, ERANGE for a negative upper bound of an unsigned target, no store to errno that replaces a verdict already there, value errno != 0. "
+        "humansize_parse's state machine is extracted from its control-flow graph by evaluation over known values and compared with the automaton "
+        "of /[0-9]+ ?[kMGTPE]?B?/ by exhaustive exploration of the product for all byte values: same accept/reject at every end of string, "
+        "multiplier == 1000^k on acceptance, the loop runs exactly while characters remain and no error was found -- the grammar clause is decided "
+        "for all strings.",
+ "C17": "hexify's output layout (high nibble of in[j] at out+2j, low at out+2j+1, NUL at out+2len; relational); every inet_ntop is given the space "
+        "the longest text of its family needs and no more than its destination has.",
+ "C19": "util/asprintf.c hands back the complete formatted string (every pass that writes is given at least the formatted length + 1 where it is made, "
+        "or its output is used only where that holds; the allocation covers the space given; the length returned is the formatted length; relational); "
+        "no argument of the formatting/hashing/signing calls changes value between two of its uses (the templates are compared by argument names); "
+        "hexify's table, nibble order and output layout (C17's rules).",
+ "C20": "A local declared as another name for the object being freed is followed (a wipe of sizeof(pointer) through the alias is seen).",
+}
+for _k, _v in ROUND4.items():
+    CLAIMS[_k]["text"] += " " + _v
+CLAIMS["C14"]["technique"] += "; double-release typestate over bounded path worlds with interprocedural failure-path summaries"
+CLAIMS["C15"]["technique"] += "; relational abstract interpretation with a ghost prefix count; CFG path search for end-of-input termination"
+CLAIMS["C16"]["technique"] += "; finite-domain evaluation of the CFG (state-machine extraction, product with the documented automaton; macro type probes)"
+CLAIMS["C17"]["technique"] += "; relational abstract interpretation (output layout)"
+CLAIMS["C19"]["technique"] += "; relational abstract interpretation (formatted-length completeness)"
+CLAIMS["C16"]["note"] = CLAIMS["C16"]["note"].replace("the PARSENUM type-classification arithmetic, ", "")
+CLAIMS["C15"]["note"] = CLAIMS["C15"]["note"].replace("Not decided: termination; ", "Not decided: termination other than at end of stream input; ").replace("the command-line parser (C18); ", "the option parser beyond its bounds and pack cursor (C18); ")
+
 NOT_APPLICABLE = {
 }
 
